@@ -24,6 +24,7 @@ import (
 	"time"
 
 	"github.com/olric-data/olric/internal/cluster/partitions"
+	"github.com/olric-data/olric/internal/verifhook"
 	"github.com/olric-data/olric/pkg/storage"
 	"golang.org/x/sync/semaphore"
 )
@@ -157,6 +158,7 @@ func (s *Service) scanFragmentForEviction(partID uint64, name string, f *fragmen
 			}
 
 			if isKeyExpired(ttl) || dm.isKeyIdleOnFragment(hkey, f) {
+				verifhook.At("evict.expired", dm.name, key)
 				err = dm.deleteOnCluster(hkey, key, f)
 				if err != nil {
 					// It will be tried again.
